@@ -207,33 +207,51 @@ def key_conditions():
         for self_verifying in (False, True):
             r = scn.Run(repo, KEY, 'check_management', label + '[management,self_verifying=%s]' % self_verifying)
             ex, st = r.ex, r.st
-            sv = z3.Int('self_verified_issues')
-            expired = z3.Bool('key_is_expired')
-            nrev = z3.Bool('has_revocation_signature')
-            st.pc += [sv >= 0, sv < 2048]
+            # the conditions of the key at the first call [0] and at a later call on the SAME key object [1] (time has passed, a
+            # self-signature with another expiry was attached to a user id, a revocation arrived): no hidden state
+            svs = [z3.Int('self_verified_issues'), z3.Int('self_verified_issues_at_the_second_call')]
+            exps = [z3.Bool('key_is_expired'), z3.Bool('key_is_expired_at_the_second_call')]
+            nrevs = [z3.Bool('has_revocation_signature'), z3.Bool('has_revocation_signature_at_the_second_call')]
+            for x in svs:
+                st.pc += [x >= 0, x < 2048]
             me = E.VObj(KEY, 'key')
-            r.hook(KEY, 'self_verified', scn.const(E.VInt(sv, enum=SI)))
-            r.hook(KEY, 'is_expired', scn.const(E.VBool(expired)))
+            now = lambda st: st.ghost.get('epoch', 0)
+            r.hook(KEY, 'self_verified', lambda ex, st, o, a: [(st, E.VInt(svs[now(st)], enum=SI))])
+            r.hook(KEY, 'is_expired', lambda ex, st, o, a: [(st, E.VBool(exps[now(st)]))])
             r.hook(KEY, 'expires_at', scn.const(E.VExt('datetime', ())))
 
             def revs(ex, st, o, a):
+                nrev = nrevs[now(st)]
                 s2 = st.clone()
                 st.pc.append(nrev)
                 s2.pc.append(z3.Not(nrev))
                 return [(st, ex.new_list(st, [E.VObj('pgpy.pgp.PGPSignature', 'rev')])), (s2, ex.new_list(s2, []))]
             r.hook(KEY, 'revocation_signatures', revs)
+            bit = lambda x, i: (x / (2 ** i)) % 2 == 1
+
+            def post(s, v, tag, sv, expired):
+                res = ex_int(v)
+                r.oblige(s, '%sexpired-key-always-reports-Expired-whatever-else-is-true/%s' % tag, z3.Implies(expired, bit(res, 1)))
+                r.oblige(s, '%skeeps-every-issue-of-the-self-signature-check/%s' % tag, z3.And(*[z3.Implies(bit(sv, i), bit(res, i)) for i in range(11)]))
+                r.oblige(s, '%sadds-only-Expired-and-Revoked/%s' % tag,
+                         z3.And(*[z3.Implies(bit(res, i), bit(sv, i)) for i in range(11) if i not in (1, 3)]))
+                r.oblige(s, '%sExpired-only-if-expired-or-already-reported/%s' % tag, z3.Implies(bit(res, 1), z3.Or(expired, bit(sv, 1))))
             for pi, (s, v) in enumerate(r.call(me, [E.VBool(self_verifying)])):
                 paths += 1
                 if isinstance(v, E.Raise):
                     r.oblige(s, 'safety(%s)/p%d' % (v.exc, pi), z3.BoolVal(False), v.where)
                     continue
-                res = ex_int(v)
-                bit = lambda x, i: (x / (2 ** i)) % 2 == 1
-                r.oblige(s, 'expired-key-always-reports-Expired-whatever-else-is-true/p%d' % pi, z3.Implies(expired, bit(res, 1)))
-                r.oblige(s, 'keeps-every-issue-of-the-self-signature-check/p%d' % pi, z3.And(*[z3.Implies(bit(sv, i), bit(res, i)) for i in range(11)]))
-                r.oblige(s, 'adds-only-Expired-and-Revoked/p%d' % pi,
-                         z3.And(*[z3.Implies(bit(res, i), bit(sv, i)) for i in range(11) if i not in (1, 3)]))
-                r.oblige(s, 'Expired-only-if-expired-or-already-reported/p%d' % pi, z3.Implies(bit(res, 1), z3.Or(expired, bit(sv, 1))))
+                post(s, v, ('', 'p%d' % pi), svs[0], exps[0])
+                r.oblige(s, 'Revoked-iff-a-revocation-signature-or-already-reported/p%d' % pi, bit(ex_int(v), 3) == z3.Or(nrevs[0], bit(svs[0], 3)))
+                s.ghost['epoch'] = 1
+                for qi, (s2, v2) in enumerate(ex.call_func(E.VFunc(r.node, None, cls=r.dcls, self_val=me, mod=r.mod), [E.VBool(self_verifying)], {}, s, {'mod': r.mod})):
+                    paths += 1
+                    if isinstance(v2, E.Raise):
+                        r.oblige(s2, 'second-call:safety(%s)/p%d.%d' % (v2.exc, pi, qi), z3.BoolVal(False), v2.where)
+                        continue
+                    post(s2, v2, ('second-call-on-the-same-key:', 'p%d.%d' % (pi, qi)), svs[1], exps[1])
+                    r.oblige(s2, 'second-call-on-the-same-key:Revoked-iff-a-revocation-signature-or-already-reported/p%d.%d' % (pi, qi),
+                             bit(ex_int(v2), 3) == z3.Or(nrevs[1], bit(svs[1], 3)))
             res_ = r.result()
             obls += res_['obligations']
             funcs += res_['funcs']
